@@ -74,6 +74,15 @@ def check_one(ctx, res, seed, st, samples, distinct):
     dd = S.deserialize(res, items)
     viol = []
     again = []
+    # the property speaks of the fragment on which serde round-trips its own output: a definition one of whose REAL serialised
+    # samples is rejected by the real Deserialize (e.g. a tuple variant whose only field is `#[serde(skip)]`) is outside it
+    rejected_q = sorted({qi for qi, k, text in items if (dd.get((qi, k)) or "").startswith("\x00")})
+    suspects = {d["ident"] for qi in rejected_q for d in reach(by, qs[qi])}
+    rt_items = [(qi, 700000 + n, text) for n, ((qi, k), text) in enumerate(sorted(res["v"].items()))
+                if qs[qi][0] == "named" and qs[qi][1] in suspects and not text.startswith("\x00") and not dup_keys(S.parse_json(text))]
+    rt = S.deserialize(res, rt_items) if rt_items else {}
+    no_round_trip = {qs[qi][1] for qi, k, text in rt_items if (rt.get((qi, k)) or "").startswith("\x00")}
+    st["definitions_serde_does_not_round_trip"] = st.get("definitions_serde_does_not_round_trip", 0) + len(no_round_trip)
     for qi, k, text in items:
         r = dd.get((qi, k))
         distinct.add((C.rust_ty(qs[qi]), text))
@@ -89,6 +98,8 @@ def check_one(ctx, res, seed, st, samples, distinct):
             if cls:
                 st["known"] += 1
                 ctx.known_class(cls, "%s <- %s" % (C.rust_ty(t), text[:100]), data)
+            elif {d["ident"] for d in reach(by, t)} & no_round_trip:
+                st["outside_round_trip_fragment"] = st.get("outside_round_trip_fragment", 0) + 1
             else:
                 viol.append(data)
         else:
